@@ -60,18 +60,29 @@ theorem sumWorkloads_spec (ws : List WorkloadRes) (h : ∀ w ∈ ws, WFW w) :
   unfold sumWorkloads
   refine ⟨by rw [h1]; simp, by rw [h2]; simp, fun k => by rw [h3]; simp, fun k => by rw [h4]; simp, h5⟩
 
+theorem mem_numaIDs (n : NodeInfo) (s : WorkloadRes) (k : String) :
+    k ∈ numaIDs n s ↔ (k ∈ n.capacity.numaMemory.keys ∨ k ∈ n.usage.numaMemory.keys ∨ k ∈ s.numaMemory.keys) := by
+  unfold numaIDs
+  simp only [List.mem_append, List.mem_filter, Bool.and_eq_true, Bool.not_eq_true', List.contains_eq_mem, decide_eq_false_iff_not]
+  by_cases h1 : k ∈ n.capacity.numaMemory.keys <;> by_cases h2 : k ∈ n.usage.numaMemory.keys <;> simp [h1, h2]
+
 /-- no diffs reported ⇔ usage equals the workloads' sum on everything the check compares -/
 theorem no_diffs_iff (n : NodeInfo) (ws : List WorkloadRes) (h : ∀ w ∈ ws, WFW w) :
     resourceDiffs n ws = [] ↔ ConsistentOn n.capacity n.usage ws := by
   obtain ⟨h1, h2, h3, h4, _⟩ := sumWorkloads_spec ws h
   unfold resourceDiffs ConsistentOn
   simp only [List.append_eq_nil_iff, List.map_eq_nil_iff, List.filter_eq_nil_iff, ite_eq_right_iff,
-    reduceCtorEq, imp_false, Decidable.not_not, decide_eq_true_eq, ne_eq, h1, h2, h3, h4]
+    reduceCtorEq, imp_false, Decidable.not_not, decide_eq_true_eq, ne_eq, h1, h2, h3]
   constructor
   · rintro ⟨⟨⟨a, b⟩, c⟩, d⟩
-    exact ⟨a.symm, d, fun k hk => (b k hk).symm, fun k hk => (c k hk).symm⟩
+    refine ⟨a.symm, d, fun k hk => (b k hk).symm, fun k => ?_⟩
+    by_cases hk : k ∈ numaIDs n (sumWorkloads ws)
+    · rw [← h4]; exact (c k hk).symm
+    · rw [mem_numaIDs] at hk
+      simp only [not_or] at hk
+      rw [get_of_not_mem_keys _ _ hk.2.1, ← h4, get_of_not_mem_keys _ _ hk.2.2]
   · rintro ⟨a, b, c, d⟩
-    exact ⟨⟨⟨a.symm, fun k hk => (c k hk).symm⟩, fun k hk => (d k hk).symm⟩, b⟩
+    exact ⟨⟨⟨a.symm, fun k hk => (c k hk).symm⟩, fun k _ => by rw [h4]; exact (d k).symm⟩, b⟩
 
 theorem repairedUsage_consistent (ws : List WorkloadRes) (h : ∀ w ∈ ws, WFW w) : Consistent (repairedUsage ws) ws := by
   obtain ⟨h1, h2, h3, h4, _⟩ := sumWorkloads_spec ws h
